@@ -756,6 +756,12 @@ def _base_events(nss):
         INST('B', [P('k1', 'string', 'a'), P('s', 'string', [], True)]),       # empty array
         INST('B', [P('k1', 'string', 'a'), P('p', 'uint8', None), P('s', 'string', None, True)]),
     ]
+    dev += [   # NULL values that are mistyped (type, or scalar/array shape) for their property
+        INST('B', [P('k1', 'string', 'a'), P('p', 'string', None)]),
+        INST('B', [P('k1', 'string', 'a'), P('p', 'uint8', None, True)]),
+        INST('B', [P('k1', 'string', 'a'), P('s', 'string', None)]),
+        INST('B', [P('k1', 'string', 'a'), P('s', 'uint8', None, True)]),
+    ]
     for i in dev:
         ev.append(_ev('create', inst=i, ns=None))
     if 'ns2' in nss:                                                           # names as stored in ns2
@@ -792,6 +798,9 @@ def _base_events(nss):
     ev.append(_ev('modify', inst=INST('B', [P('p', 'uint8', [2], True)], path=T), pl=None))
     ev.append(_ev('modify', inst=INST('B', [P('zz', 'string', 'x'), P('p', 'uint8', 2)], path=T), pl=['p']))
     ev.append(_ev('modify', inst=INST('B', [P('p', 'uint8', None)], path=T), pl=None))   # set NULL
+    ev.append(_ev('modify', inst=INST('B', [P('p', 'string', None)], path=T), pl=None))  # NULL, wrong type
+    ev.append(_ev('modify', inst=INST('B', [P('p', 'uint8', None, True)], path=T), pl=None))  # NULL array
+    ev.append(_ev('modify', inst=INST('B', [P('s', 'string', None)], path=T), pl=None))  # NULL scalar
     ev.append(_ev('modify', inst=INST('B', p2, path=None), pl=None))             # no path: local
     TS = PATH('S', k('a'))
     ev.append(_ev('modify', inst=INST('S', [P('q', 'datetime', DT2)], path=TS), pl=None))
